@@ -153,6 +153,57 @@ struct St {
     abs: Abstract,
     last_parse_id: u64,
     pending_note: Option<(bool, Vec<(Option<String>, u64)>, Option<String>)>,
+    c12: Option<C12>,
+}
+
+/// controlled threads for C12: each runs one `set_new_spec` call and parks at the hook point
+/// between the replacement of the spec and the end of the call
+struct C12 {
+    ctl: Arc<(Mutex<HashMap<u64, (bool, bool, bool)>>, std::sync::Condvar)>, // tid -> (at_updated, released, done)
+    joins: HashMap<u64, std::thread::JoinHandle<()>>,
+    submitted: Vec<String>,
+}
+impl C12 {
+    fn new() -> Self {
+        let ctl: Arc<(Mutex<HashMap<u64, (bool, bool, bool)>>, std::sync::Condvar)> = Arc::new((Mutex::new(HashMap::new()), std::sync::Condvar::new()));
+        let c2 = ctl.clone();
+        flexi_logger::verif_hooks::set_point_handler(Some(Arc::new(move |name| {
+            if name != "spec.updated" {
+                return;
+            }
+            let tname = std::thread::current().name().unwrap_or("").to_string();
+            let Some(tid) = tname.strip_prefix("c12-").and_then(|x| x.parse::<u64>().ok()) else { return };
+            let (m, cv) = &*c2;
+            let mut g = m.lock().unwrap();
+            g.entry(tid).or_insert((false, false, false)).0 = true;
+            cv.notify_all();
+            while !g.get(&tid).unwrap().1 {
+                g = cv.wait(g).unwrap();
+            }
+        })));
+        C12 { ctl, joins: HashMap::new(), submitted: vec![] }
+    }
+    fn wait_updated(&self, tid: u64, ms: u64) -> bool {
+        let (m, cv) = &*self.ctl;
+        let g = m.lock().unwrap();
+        let (g, _) = cv.wait_timeout_while(g, std::time::Duration::from_millis(ms), |st| !st.get(&tid).map_or(false, |x| x.0)).unwrap();
+        g.get(&tid).map_or(false, |x| x.0)
+    }
+    fn release(&self, tid: u64) {
+        let (m, cv) = &*self.ctl;
+        m.lock().unwrap().entry(tid).or_insert((false, false, false)).1 = true;
+        cv.notify_all();
+    }
+    fn finish_all(&mut self) {
+        let tids: Vec<u64> = self.joins.keys().copied().collect();
+        for t in &tids {
+            self.release(*t);
+        }
+        for (_, j) in self.joins.drain() {
+            let _ = j.join();
+        }
+        flexi_logger::verif_hooks::set_point_handler(None);
+    }
 }
 
 fn err_count(p: &std::path::Path, needle: &str) -> usize {
@@ -205,12 +256,13 @@ pub fn execute(ctx: &mut Ctx, lines: &[String]) -> Vec<String> {
         },
         last_parse_id: 0,
         pending_note: None,
+        c12: None,
     };
     let mut out = Vec::with_capacity(lines.len());
     let mut nontrivial = false;
     for (li, line) in lines.iter().enumerate() {
         let t = tokens(line);
-        let needs_logger = matches!(t[0], "SET" | "PUSH" | "POP" | "PARSENEW" | "PARSEPUSH" | "GRID" | "Q" | "LOG");
+        let needs_logger = matches!(t[0], "SET" | "PUSH" | "POP" | "PARSENEW" | "PARSEPUSH" | "GRID" | "Q" | "LOG" | "CSTART" | "CFINISH" | "CQUIET");
         let needs_spec = matches!(t[0], "DISPLAY" | "DISPLAYSORTED" | "TOML" | "EN" | "MAXLEVEL" | "INIT" | "SET" | "PUSH");
         if needs_logger && st.logger.is_none() {
             out.push("no-logger".into());
@@ -425,6 +477,82 @@ pub fn execute(ctx: &mut Ctx, lines: &[String]) -> Vec<String> {
                 oracle_gate(ctx, &case_id, li, &st, g);
                 format!("{} gate={g}", if ok { "ok" } else { "err" })
             }
+            ["CSTART", tid, id] => {
+                if !st.specs.contains_key(*id) {
+                    "bad-op unknown spec".into()
+                } else {
+                let tid: u64 = tid.parse().unwrap();
+                let c = st.c12.get_or_insert_with(C12::new);
+                let spec = st.specs[*id].clone();
+                c.submitted.push(id.to_string());
+                let h = st.logger.as_ref().unwrap().1.clone();
+                ctx.report.count("op.CSTART");
+                c.joins.insert(tid, std::thread::Builder::new().name(format!("c12-{tid}")).spawn(move || {
+                    h.set_new_spec(spec);
+                    std::mem::forget(h); // dropping a clone would shut the writers down
+                }).unwrap());
+                if c.wait_updated(tid, 60) { "ok".into() } else { ctx.report.count("c12.blocked"); "blocked".into() }
+                }
+            }
+            ["CFINISH", tid] => {
+                let tid: u64 = tid.parse().unwrap();
+                ctx.report.count("op.CFINISH");
+                match st.c12.as_mut() {
+                    Some(c) if c.joins.contains_key(&tid) && c.wait_updated(tid, 0) => {
+                        c.release(tid);
+                        let _ = c.joins.remove(&tid).unwrap().join();
+                        // a call that was waiting for the lock now proceeds to its own parking point
+                        let waiting: Vec<u64> = c.joins.keys().copied().collect();
+                        for w in waiting {
+                            c.wait_updated(w, 60);
+                        }
+                        "ok".into()
+                    }
+                    _ => "blocked".into(),
+                }
+            }
+            // all calls have returned: consistency oracle (C12)
+            ["CQUIET", tgs @ ..] => {
+                let submitted = st.c12.as_ref().map(|c| c.submitted.clone()).unwrap_or_default();
+                if let Some(c) = st.c12.as_mut() {
+                    c.finish_all();
+                }
+                st.c12 = None;
+                let lg = &st.logger.as_ref().unwrap().0;
+                let gate = lfn(log::max_level());
+                let mut candidates: Vec<String> = submitted.clone();
+                if let Some(a) = &st.abs.active { candidates.push(a.clone()); }
+                let mut matching: Vec<(String, u64)> = Vec::new();
+                for id in &candidates {
+                    if let Some(Some((fs, _))) = st.abs.intended.get(id) {
+                        let mut same = true;
+                        for tg in tgs {
+                            let tg = unhexs(tg).unwrap();
+                            for l in GRID_LEVELS {
+                                let md = log::Metadata::builder().level(level(l)).target(&tg).build();
+                                if let Some(sl) = spec_level(fs, &tg) {
+                                    if lg.enabled(&md) != (l <= sl) { same = false; }
+                                }
+                            }
+                        }
+                        if same {
+                            let need = fs.iter().map(|f| f.1).max().unwrap_or(0);
+                            matching.push((id.clone(), st.writers.iter().map(|w| w.1).fold(need, u64::max)));
+                        }
+                    }
+                }
+                nontrivial = true;
+                if let Some((id, _)) = matching.first() {
+                    st.abs.active = Some(id.clone());
+                }
+                if matching.is_empty() {
+                    ctx.report.fail(&case_id, "mixed-specification", &format!("line {li}: after all calls returned the logger filters according to none of the submitted specifications {candidates:?}"));
+                } else if matching.iter().all(|(_, need)| gate < *need) {
+                    ctx.report.fail(&case_id, "gate-of-another-spec", &format!(
+                        "line {li}: after all calls returned spec {:?} is active (needs max level {}) but log::max_level()={gate}", matching[0].0, matching[0].1));
+                }
+                format!("gate={gate}")
+            }
             // enabled grid on plain targets: GRID <t1> <t2> ...
             ["GRID", tgs @ ..] => {
                 let lg = &st.logger.as_ref().unwrap().0;
@@ -526,6 +654,9 @@ pub fn execute(ctx: &mut Ctx, lines: &[String]) -> Vec<String> {
             _ => format!("bad-op {line}"),
         };
         out.push(ans);
+    }
+    if let Some(c) = st.c12.as_mut() {
+        c.finish_all();
     }
     if let Some((_, h)) = st.logger.take() {
         drop(h);
@@ -914,6 +1045,75 @@ pub fn gen_c17(tier: &str, seed: u64) -> Vec<Vec<String>> {
         }
         c.push("END".into());
         cases.push(c);
+    }
+    cases
+}
+
+
+/// all interleavings of the two steps of 2..3 concurrent calls (start before finish per call),
+/// restricted to at most one call waiting for the lock at any time
+pub fn gen_c12(tier: &str, seed: u64) -> Vec<Vec<String>> {
+    let mut root = Rng::new(seed ^ 0xC12);
+    let mut cases = Vec::new();
+    fn interleavings(n: usize) -> Vec<Vec<(bool, usize)>> {
+        // (is_start, tid)
+        fn rec(n: usize, started: &mut Vec<bool>, finished: &mut Vec<bool>, cur: &mut Vec<(bool, usize)>, out: &mut Vec<Vec<(bool, usize)>>) {
+            if cur.len() == 2 * n { out.push(cur.clone()); return; }
+            for t in 0..n {
+                if !started[t] { started[t] = true; cur.push((true, t)); rec(n, started, finished, cur, out); cur.pop(); started[t] = false; }
+                else if !finished[t] { finished[t] = true; cur.push((false, t)); rec(n, started, finished, cur, out); cur.pop(); finished[t] = false; }
+            }
+        }
+        let mut out = Vec::new();
+        rec(n, &mut vec![false; n], &mut vec![false; n], &mut Vec::new(), &mut out);
+        out
+    }
+    let mut k = 0;
+    let reps = if tier == "thorough" { 8 } else { 2 };
+    for n in [2usize, 3] {
+        let all = interleavings(n);
+        for sched in all {
+            // simulate the lock: drop schedules with two waiters
+            let mut lock: Option<usize> = None;
+            let mut waiting: Vec<usize> = vec![];
+            let mut ok = true;
+            for (is_start, t) in &sched {
+                if *is_start {
+                    if lock.is_none() { lock = Some(*t); } else { waiting.push(*t); if waiting.len() > 1 { ok = false; } }
+                } else if lock == Some(*t) {
+                    lock = if waiting.is_empty() { None } else { Some(waiting.remove(0)) };
+                }
+            }
+            if !ok { continue; }
+            if n == 3 && tier != "thorough" && root.below(2) != 0 { continue; }
+            for _ in 0..reps {
+                let mut r = root.fork();
+                let mut c = vec![format!("CASE spec C12 {k}")];
+                k += 1;
+                if r.chance(1, 3) { c.push(format!("WRITER {} {}", hexs("W0"), r.below(6))); }
+                let mut names: Vec<String> = Vec::new();
+                // specs with different maximum levels and module sets
+                for i in 0..=n {
+                    let mut fs = gen_filters(&mut r, 2);
+                    if fs.is_empty() { fs.push((None, (i as u64 * 2 + 1) % 6)); }
+                    names.extend(fs.iter().filter_map(|f| f.0.clone()));
+                    c.push(format!("BUILD s{i} {} _", filters_str(&fs)));
+                }
+                let tgs = targets_for(&mut r, &names);
+                let grid: String = tgs.iter().map(|t| hexs(t)).collect::<Vec<_>>().join(" ");
+                c.push(format!("INIT s{n}"));
+                for (is_start, t) in &sched {
+                    if *is_start { c.push(format!("CSTART {t} s{t}")); } else { c.push(format!("CFINISH {t}")); }
+                }
+                // whatever was blocked is finished now, in thread order
+                for t in 0..n { c.push(format!("CFINISH {t}")); }
+                for t in 0..n { c.push(format!("CFINISH {t}")); }
+                c.push(format!("CQUIET {grid}"));
+                c.push(format!("GRID {grid}"));
+                c.push("END".into());
+                cases.push(c);
+            }
+        }
     }
     cases
 }
